@@ -42,7 +42,7 @@ SkipArgsOK(e, wantMin) ==
 
 LayoutEvOK(e) ==
     /\ e.routine # "PANIC"
-    /\ e.nreps = 7 /\ Len(e.reps) = 7          \* the routine answered on every representation
+    /\ e.nreps = e.want /\ Len(e.reps) = e.want /\ e.want \in {2, 7}      \* the routine answered on every representation (7) / on the aliasing and the copied operand (2)
     /\ CASE e.kind = "exact"   -> SameExact(e)
          [] e.kind = "approx"  -> SameApprox(e)
          [] e.kind = "argmin"  -> PlainArgOK(e, TRUE)
